@@ -127,11 +127,18 @@ def check_case(case, enforce_all=False):
         bad = [a + Dagger(a), a**2 + Dagger(a) ** 2, f + Dagger(f), a * Dagger(f) + f * Dagger(a)][par["a"] % 4]
         H0 = NumberOperator(a) + sympy.Rational(3, 2) * NumberOperator(f) + sympy.Rational(par["size"], 4) * bad
         H1 = a * Dagger(f) + f * Dagger(a) + a + Dagger(a)
-        form = par["b"] % 3
+        form = par["b"] % 5
+        good = NumberOperator(a) + sympy.Rational(3, 2) * NumberOperator(f)
         try:
             with warnings.catch_warnings():
                 warnings.simplefilter("ignore")
-                if form == 0:
+                if form == 3:
+                    # the offending term sits on only ONE of the diagonal entries (two blocks)
+                    res = block_diagonalize([sympy.Matrix([[good, 0], [0, H0 + 7]]), sympy.Matrix([[0, H1], [H1, 0]])], subspace_indices=[0, 1])
+                elif form == 4:
+                    # ... or on the first of two entries of a single matrix-valued block
+                    res = block_diagonalize([sympy.Matrix([[H0, 0], [0, good + 7]]), sympy.Matrix([[0, H1], [H1, 0]])])
+                elif form == 0:
                     res = block_diagonalize([H0, H1])
                 elif form == 1:
                     res = block_diagonalize([sympy.Matrix([[H0]]), sympy.Matrix([[H1]])])
